@@ -51,7 +51,10 @@ CHECKS = {
              "archives written by the independent reference writer (all layout options) and the third-party fixtures serve as foreign bases "
              "for random append sessions. After every session the archive is read by py7zr and by the strict reference reader and TLC "
              "(TraceWriteSession) checks members = base + successful calls in order and that name, bytes, kind, mtime and attributes of "
-             "earlier members never change in either reader's view.",
+             "earlier members never change in either reader's view. Stream targets are handed over rewound, as the last session left them, "
+             "or at their end. Lifecycle.tla (the object across modes: read-side calls inside an append session, calls after close(), "
+             "repeated close) is model-checked (negative control: probing at the stream's position) and every call-class sequence "
+             "<= 3 (thorough <= 5) is executed on a real appending object and validated by TraceLifecycle.",
         note="Trusted: TLC, harness/refcodec (independent reader/writer, self-tested against the third-party fixtures). Foreign bases py7zr "
              "cannot read correctly before any append are skipped here (reader conformance is C06). Bytes after the header are ignored.",
         technique="TLA+ spec (WriteSession) model-checked + TLC-enumerated histories replayed into code + trace validation with an independent reader",
@@ -65,7 +68,8 @@ CHECKS = {
              "Config.tla enumerates the configuration space and transcribes the constructor's chain validation. Every chain the real "
              "constructor accepts is executed with real codecs (sizes around 16 / I/O block / chunk limit, Unicode names, textures, "
              "header raw/encoded/encrypted, path/BytesIO/buffered/multi-volume targets); the session trace is validated against "
-             "TraceWriteSession (names in order, identical bytes) and every decoder/AES object's step trace against TraceStream.",
+             "TraceWriteSession (names in order, identical bytes) and every decoder/AES object's step trace against TraceStream. "
+             "Lifecycle.tla sequences (read-side calls between writes, calls after close()) run on creating objects (TraceLifecycle).",
         note="Trusted: TLC; block size / chunk limit varied by replacing get_default_blocksize/get_memory_limit; codec byte fidelity is "
              "observed (hash equality), not modelled; pyppmd failures are isolated by running the library alone (known finding).",
         technique="TLA+ specs (Stream, Config, WriteSession) model-checked incl. liveness + TLC-enumerated configurations executed + trace validation (TraceWriteSession, TraceStream)",
@@ -77,7 +81,9 @@ CHECKS = {
              "the result on a fresh open) and Untouched over all call sequences <= 3 on five model archives, with the pre-fix testzip "
              "as negative control. Every sequence the quantifier allows (TLC-enumerated, <= 3 quick / <= 4 thorough) is executed on real "
              "single- and multi-folder archives, plain and encrypted, by path and by stream, ended by close / with / exception; random "
-             "5-6 call sequences on random shapes; TraceReadSession validates every result and the archive hash.",
+             "5-6 call sequences on random shapes; TraceReadSession validates every result and the archive hash. 'Whatever calls it "
+             "makes' includes write-side calls (ReadSession.WrongMode) and, through Lifecycle.tla, calls after close() and repeated "
+             "close: the archive hash is compared after every call (negative controls: unguarded write calls).",
         note="Trusted: TLC; archives come from the independent reference writer; content identified byte-for-byte.",
         technique="TLA+ spec (ReadSession) model-checked + TLC-enumerated call sequences replayed into code + trace validation (TraceReadSession)",
         design_ref="3.3, 4 C12",
